@@ -7,7 +7,14 @@ PID = 'C10'
 TARGETS = ['KyupyVerif.Props.C10']
 RULE = ('(a) correspondence: Lean model dumps (Model/Transform.lean) vs real copy() / pickle round trip / '
         'eliminate_1to1_forks() on random circuits (Verilog- and bench-reader port styles, permuted node order so that state '
-        'elements sit anywhere incl. last, fork dictionary order != index order), NNet.wf certified on every real dump; '
+        'elements sit anywhere incl. last, fork dictionary order != index order), NNet.wf and NNet.forkIns1 (hypotheses of '
+        'elim_sem) certified on every real dump, the index maps of elimForksInM compared with the identity of the real Node/Line '
+        'objects; (a2) correspondence: Model/Substitute.lean (driver command subst) vs real substitute() on random hosts x '
+        'random implementation circuits (bench style with/without 1:1 forks, Verilog style, cells of the five built-in '
+        'libraries; multi-output, outputs read internally, inputs with 0/1/many readers, no output, empty, state elements, '
+        'feed-through; unconnected / surplus instance pins, pins driven by gates or forks, permuted node orders), canonical '
+        'dumps incl. names, raising cases must raise in both; resolve_tlib_cells() vs the model resolveCells (driver command '
+        'resolve) on random circuits instantiating cells of the built-in and of synthetic libraries; '
         '(b) oracle: random primitive circuits and random circuits instantiating cells of the five built-in libraries x random '
         'compositions of {copy, pickle, eliminate_1to1_forks, resolve_tlib_cells, substitute by an equivalent small implementation}: '
         'truth table at ports + state elements (real LogicSim m=2, exhaustive <= 12 sources else 256 random rows, keyed by name) '
@@ -717,15 +724,22 @@ def corr(ck, n, mode=('swap', 'raise')):
         elif variant == 'dict': c = shifted_dict_order(c)
         d0, nm = circ.dump_net(c), names_arg(c)
         order = ','.join(circ.pct(k) for k in c.forks)
-        reqs = [f'xform wf {nm} {d0}', f'xform copy {nm} {d0}', f'xform pickle {nm} {d0}', f'xform {ecmd}:{order} {nm} {d0}']
+        reqs = [f'xform wfsem {nm} {d0}', f'xform copy {nm} {d0}', f'xform pickle {nm} {d0}', f'xform {ecmd}:{order} {nm} {d0}']
         real = ['1', full_dump(c.copy()), full_dump(pickle.loads(pickle.dumps(c)))]
         ce = from_json(to_json(c)) if variant != 'dict' else c
         nodes_before = len(ce.nodes)
+        node_was = {id(x): x.index for x in ce.nodes}       # object identity -> index before (the maps of theorem elim_sem)
+        line_was = {id(x): x.index for x in ce.lines}
         try:
             ce.eliminate_1to1_forks(); real.append(full_dump(ce))
         except Exception:
             real.append('raise')
         elim_removed += nodes_before - len(ce.nodes)
+        maps_checked = mode[0] == 'swap'
+        if maps_checked:     # index maps of the loop: model (elimForksInM) vs object identity in the real circuit
+            reqs.append(f"xform elimmap{int(mode[1] == 'skip')}:{order} {nm} {d0}")
+            real.append('raise' if real[-1] == 'raise' else
+                        ','.join(str(node_was[id(x)]) for x in ce.nodes) + ' ; ' + ','.join(str(line_was[id(x)]) for x in ce.lines))
         # second round: model on the dump of the real result (dictionary order of the survivors != index order)
         if real[-1] != 'raise' and rng.random() < 0.5:
             order2 = ','.join(circ.pct(k) for k in ce.forks)
@@ -738,13 +752,201 @@ def corr(ck, n, mode=('swap', 'raise')):
         except Exception as ex:
             ck.broken_tie('transformation model correspondence', f'driver: {type(ex).__name__}: {ex}'[:300], inp={'net': d0, 'names': nm})
             continue
-        labels = ['wf certificate (NNet.wf on the real dump)', 'copy', 'pickle', 'eliminate_1to1_forks', 'eliminate_1to1_forks (2nd)', 'copy (after elimination)']
+        labels = ['wf certificate (NNet.wf and NNet.forkIns1 on the real dump)', 'copy', 'pickle', 'eliminate_1to1_forks'] + \
+                 (['eliminate_1to1_forks index maps (object identity)'] if maps_checked else []) + \
+                 ['eliminate_1to1_forks (2nd)', 'copy (after elimination)']
         for lab, m, r in zip(labels, out, real):
             if m != r:
                 ck.broken_tie(f'transformation model correspondence: {lab}', f'model {m[:240]} != real {r[:240]}',
                               inp={'net': d0, 'names': nm, 'fork_order': order})
         ck.case(key=('corr', d0, nm), nontrivial=len(c.lines) >= 4, tag=['stream:corr', f'corr-variant:{variant}', f'style:{style}'])
     ck.extra['corr_nodes_removed_by_elimination'] = elim_removed
+
+
+# ---------------------------------------------------------------------------------------------------------------------
+# substitute(): model (Model/Substitute.lean, driver command `subst`) vs real code, canonical dumps
+IMPL_PRIMS = {1: ['BUF1', 'INV1'], 2: ['AND2', 'OR2', 'XOR2', 'NAND2', 'NOR2'], 3: ['AND3', 'AO21', 'MUX21'], 4: ['AO22', 'NOR4']}
+
+
+def rand_impl(rng):
+    """random implementation circuit. bench style (ports are forks, as TechLib builds them; 1:1 forks eliminated or not) or
+    Verilog style (port cells around forks). Shapes: multi-output, outputs read internally, inputs with 0/1/many readers,
+    no output, empty, state elements, constants, feed-through."""
+    from kyupy import bench
+    from kyupy.circuit import Circuit, Node, Line
+    shape = rng.choice(['rand', 'rand', 'rand', 'rand', 'empty', 'inputs-only', 'noout', 'const', 'state', 'vstyle', 'vstyle'])
+    if shape == 'empty': return Circuit('impl'), ['empty']
+    ni = rng.randint(0, 4)
+    ins = [f'I{j}' for j in range(ni)]
+    if shape == 'inputs-only':
+        with common.quiet(): c = bench.parse(f"input({','.join(ins)})" if ins else '')
+        return c, ['inputs-only']
+    sig, gates = list(ins), []
+    ng = rng.randint(1, 6)
+    for g in range(ng):
+        if shape == 'state' and g == rng.randint(0, ng - 1) and sig:
+            kind, args = rng.choice(['DFF', 'LATCH', 'dff']), [rng.choice(sig) for _ in range(rng.randint(1, 2))]
+        elif not sig or (shape == 'const' and g == 0): kind, args = rng.choice(['__const0__', '__const1__']), []
+        else:
+            ar = rng.choice([1, 2, 2, 3, 4])
+            kind, args = rng.choice(IMPL_PRIMS[ar]), [rng.choice(sig) for _ in range(ar)]
+        gates.append((f'G{g}', kind, args)); sig.append(f'G{g}')
+    no = 0 if shape == 'noout' else rng.randint(1, min(3, ng))
+    outs = rng.sample([g[0] for g in gates], no)
+    if shape == 'vstyle':
+        c = Circuit('impl')
+        forks = {}
+        for a in ins:
+            n = Node(c, a, 'input'); c.io_nodes.append(n); forks[a] = Node(c, a); Line(c, n, forks[a])
+        for name, kind, args in gates:
+            cell = Node(c, name, kind); forks[name] = Node(c, name); Line(c, cell, forks[name])
+            for a in args: Line(c, forks[a], cell)
+        for o in outs:
+            n = Node(c, o + '_o', 'output'); c.io_nodes.append(n); Line(c, forks[o], n)
+        if ins and rng.random() < 0.15:    # feed-through: an input port wired to an output port
+            n = Node(c, 'ft_o', 'output'); c.io_nodes.append(n); Line(c, forks[rng.choice(ins)], n)
+        tags = ['vstyle']
+    else:
+        txt = (f"input({','.join(ins)}) " if ins else '') + (f"output({','.join(outs)}) " if outs else '') + \
+              ' '.join(f"{n}={kd}({','.join(a)})" for n, kd, a in gates)
+        with common.quiet(): c = bench.parse(txt)
+        tags = [shape]
+    if rng.random() < 0.6:
+        try: c.eliminate_1to1_forks(); tags.append('elim')
+        except Exception: pass
+    if rng.random() < 0.2: c = permuted(rng, c); tags.append('perm')
+    return c, tags
+
+
+def impl_features(impl):
+    ins = [q for q in impl.io_nodes if len(q.ins) == 0]
+    outs = [q for q in impl.io_nodes if len(q.ins) > 0]
+    f = []
+    if any(len(q.outs) == 0 for q in ins): f.append('in0readers')
+    if any(len(q.outs) == 1 for q in ins): f.append('in1reader')
+    if any(len(q.outs) > 1 for q in ins): f.append('inNreaders')
+    if len(outs) > 1: f.append('multiout')
+    if len(outs) == 0: f.append('noout')
+    if any(len(q.outs) > 0 for q in outs): f.append('outread')
+    if len(impl.nodes) == 0: f.append('empty')
+    if any(q.kind != '__fork__' and is_state(q.kind) for q in impl.nodes): f.append('state')
+    return f
+
+
+def rand_host(rng, impl):
+    """random circuit with an instance `u` whose pins match the ports of `impl` (sometimes fewer / unconnected / one more)"""
+    from kyupy.circuit import Node, Line
+    c = circ.rand_circuit(rng, style=rng.choice(['v', 'v', 'b']), n_gates=rng.randint(1, 8), n_ff=rng.choice([0, 0, 1, 2]))
+    ni = sum(1 for q in impl.io_nodes if len(q.ins) == 0)
+    no = len(impl.io_nodes) - ni
+    sigs = [n for n in c.nodes if n.kind == '__fork__']
+    u = Node(c, 'u', rng.choice(['CELLX1', 'DFFCELL', 'LATCHQ', 'CELLX1']))
+    p_in, p_out = rng.choice([0.0, 0.1, 0.3]), rng.choice([0.0, 0.0, 0.2, 0.5])
+    tags = []
+    for k in range(ni + (1 if rng.random() < 0.03 else 0)):
+        if rng.random() < p_in: tags.append('unconn-in'); continue
+        if rng.random() < 0.2:    # driven 1:1 by a gate of its own (the driver of the pin is not a fork)
+            g = Node(c, f'hd{k}', rng.choice(['INV1', 'BUF1'])); Line(c, rng.choice(sigs), g); Line(c, g, (u, k))
+        else: Line(c, rng.choice(sigs), (u, k))
+    for k in range(no + (1 if rng.random() < 0.03 else 0)):
+        if rng.random() < p_out: tags.append('unconn-out'); continue
+        r = rng.random()
+        if r < 0.6:
+            f = Node(c, f'n{k}'); Line(c, (u, k), f)
+            for _ in range(rng.randint(0, 2)):
+                t = rng.random()
+                if t < 0.5:
+                    o = Node(c, f'uo{k}_{len(c.nodes)}', 'output'); Line(c, f, o); c.io_nodes.append(o)
+                else:
+                    g = Node(c, f'ug{k}_{len(c.nodes)}', rng.choice(['AND2', 'XOR2'])); Line(c, f, g); Line(c, rng.choice(sigs), g)
+                    gf = Node(c, g.name); Line(c, g, gf); sigs.append(gf)
+        else:
+            o = Node(c, f'uo{k}', 'output'); Line(c, (u, k), o); c.io_nodes.append(o)
+    if rng.random() < 0.5: c = permuted(rng, c); tags.append('host-perm')
+    return c, tags
+
+
+def lib_impl(rng):
+    """implementation circuit of a random cell of a built-in library (a fresh copy: substitute must not see shared objects)"""
+    lname = rng.choice(LIBS)
+    tlib = get_tlib(lname)
+    pool = [k for k in SPECIAL.get(lname, []) if k in tlib.cells] if rng.random() < 0.4 else []
+    kind = rng.choice(pool) if pool else rng.choice(rng.choice(lib_groups(tlib)))
+    return from_json(to_json(tlib.cells[kind][0])), ['lib', f'lib-{lname}']
+
+
+def is_regular(c, u, impl):
+    """the case of theorems substitute_regular / substitute_wiring (model predicate regularB)"""
+    ins = [q for q in impl.io_nodes if len(q.ins) == 0]
+    outs = [q for q in impl.io_nodes if len(q.ins) > 0]
+    if not outs and not any(q.kind != '__fork__' and is_state(q.kind) for q in impl.nodes): return False
+    if len(u.ins) > len(ins) or len(u.outs) != len(outs) or any(l is None for l in u.outs): return False
+    return all(l is None or len(q.outs) > 0 for q, l in zip(ins, list(u.ins)))
+
+
+def corr_subst(ck, n):
+    rng = ck.rng
+    raised = changed = 0
+    for it in range(n):
+        impl, itags = lib_impl(rng) if rng.random() < 0.3 else rand_impl(rng)
+        c, htags = rand_host(rng, impl)
+        u = c.cells['u']
+        htags.append('regular' if is_regular(c, u, impl) else 'not-regular')
+        d0, nm, idx = circ.dump_net(c), names_arg(c), u.index
+        req = f'subst {idx} {nm} {names_arg(impl)} {d0} @@ {circ.dump_net(impl)}'
+        nodes0, lines0 = len(c.nodes), len(c.lines)
+        try:
+            c.substitute(u, impl); real = full_dump(c)
+        except Exception as ex:
+            real = 'raise'; raised += 1
+        try:
+            out = common.run_driver([req])[0]
+        except Exception as ex:
+            ck.broken_tie('substitute model correspondence', f'driver: {type(ex).__name__}: {ex}'[:300], inp={'request': req})
+            continue
+        out, _, flag = out.rpartition(' ; ')
+        if out != real:
+            ck.broken_tie('substitute model correspondence', f'model {out[:300]} != real {real[:300]}', inp={'request': req})
+        if real != 'raise' and flag != htags[-1]:      # (a raising call is not regular use, whatever the predicate says)
+            ck.broken_tie('substitute model correspondence: regularB', f'model {flag} != harness {htags[-1]}', inp={'request': req})
+        feats = impl_features(impl)
+        if real != 'raise' and (len(c.nodes) < nodes0 + sum(1 for q in impl.nodes if q not in impl.io_nodes) - 1): changed += 1
+        ck.case(key=('subst', req), nontrivial=real != 'raise' and len(impl.nodes) > 0,
+                tag=['stream:corr-subst', f"subst-result:{'raise' if real == 'raise' else 'ok'}"] + [f'impl:{t}' for t in itags] +
+                    [f'impl-shape:{x}' for x in feats] + [f'host:{t}' for t in sorted(set(htags))])
+    ck.extra['corr_subst_raised'] = raised
+    ck.extra['corr_subst_with_removed_nodes'] = changed
+
+
+def corr_resolve(ck, n):
+    """resolve_tlib_cells(): model (resolveCells = substitute folded over the snapshot of the nodes) vs real code"""
+    rng = ck.rng
+    raised = 0
+    for it in range(n):
+        if rng.random() < 0.3:
+            tl = rand_synth_lib(rng); special = None; libtag = 'synthetic'
+        else:
+            tl = rng.choice(LIBS); special = SPECIAL.get(tl); libtag = tl
+        tlib = get_tlib(tl)
+        c = rand_lib_circuit(rng, tlib, special=special, p_unconn_in=rng.choice([0.0, 0.08, 0.2]), p_unconn_out=rng.choice([0.0, 0.15, 0.4]))
+        if rng.random() < 0.4: c = permuted(rng, c)
+        kinds = sorted({x.kind for x in c.nodes if x.kind in tlib.cells})
+        blocks = ' '.join(f'@@ {circ.pct(k)} {names_arg(tlib.cells[k][0])} {circ.dump_net(tlib.cells[k][0])}' for k in kinds)
+        req = f'resolve {names_arg(c)} {circ.dump_net(c)} {blocks}'
+        try:
+            c.resolve_tlib_cells(tlib); real = full_dump(c)
+        except Exception:
+            real = 'raise'; raised += 1
+        try:
+            out = common.run_driver([req])[0]
+        except Exception as ex:
+            ck.broken_tie('resolve_tlib_cells model correspondence', f'driver: {type(ex).__name__}: {ex}'[:300], inp={'request': req[:4000]})
+            continue
+        if out != real:
+            ck.broken_tie('resolve_tlib_cells model correspondence', f'model {out[:300]} != real {real[:300]}', inp={'request': req[:4000]})
+        ck.case(key=('resolve', req), nontrivial=real != 'raise' and len(kinds) > 0,
+                tag=['stream:corr-resolve', f'lib:{libtag}', f'instances:{min(len(kinds), 4)}', f"resolve-result:{'raise' if real == 'raise' else 'ok'}"])
+    ck.extra['corr_resolve_raised'] = raised
 
 
 def compose_case(rng, thorough):
@@ -892,15 +1094,21 @@ def run(ck):
     mode = probe_mode()
     ck.extra['elim_mode_of_code_under_test'] = mode
     corr(ck, 120 * ck.scale, mode)
+    corr_subst(ck, 400 * ck.scale)
+    corr_resolve(ck, 150 * ck.scale)
     oracle_compose(ck, 220 * ck.scale, thorough)
     sweep(ck, thorough)
     synthetic(ck, 6 * ck.scale, thorough)
     if ck.broken and not ck.violations:
         oracle_compose(ck, 220 * ck.scale * 8, thorough)
     ck.assumptions += [
-        'copy_dump_eq / pickle_dump_eq / elim_* are theorems about the dump-level model; the model is tied to circuit.py by exact '
-        'dump correspondence and NNet.wf is evaluated on every real dump',
-        'substitute / resolve_tlib_cells / remove_dangling_nodes are validated by simulation before/after, not proved',
+        'copy_dump_eq / pickle_dump_eq / elim_* / substitute_* are theorems about the dump-level models; the models are tied to '
+        'circuit.py by exact dump correspondence and NNet.wf / NNet.forkIns1 are evaluated on every real dump',
+        'elim_sem is stated for every consistent labelling (no uniqueness needed); that LogicSim computes a consistent labelling is C01',
+        'substitute: ports, state elements (up to order; names and order in the regular same-class case), pin-by-pin wiring and '
+        'the equations outside the cell are theorems about the model; that the copied implementation computes the cell function '
+        '(substitute_sem) and the function after resolve_tlib_cells (modelled as a fold of substitute; resolve_ports proved) '
+        'are validated by simulation before/after, not proved',
         'the function is observed through the real LogicSim(m=2) (C01); reference of a circuit with library cells = the same '
         'circuit flattened by an independent inliner (implementation ports become forks, unconnected inputs read 0)',
         'object identity of nodes = (name, class) as in Node.__eq__; dictionary order of forks is an explicit input of the model']
